@@ -76,6 +76,8 @@ class Scenario:
         if world.get("argmap"):
             self.ns["ARG"].update({k: self.bw.instance(c) for k, c in world["argmap"].items()})
         self.budget = world.get("budget", 0)
+        # "object": calls are made on the Ovld object itself (what @f.variant, f.copy(), Ovld(mixins=...) hand out)
+        self.via = world.get("via", "dispatch")
         self.offender = offender
         self.off_fn = None
         if offender:
@@ -158,7 +160,7 @@ class Scenario:
     def call(self, ov, call):
         # through the function object users hold (ov.dispatch), like f(...)
         self.ns["BUDGET"][0] = self.budget
-        return self.ob.call(ov.dispatch, call, resolve=False)
+        return self.ob.call(ov if self.via == "object" else ov.dispatch, call, resolve=False)
 
 
 # ---------------------------------------------------------------------------
